@@ -214,7 +214,20 @@ func (vc *VC) unop(fx *FuncCtx, x *ssa.UnOp, st *State, fr *Frame) Val {
 				return &ArrV{A: Select(st.heapVar(ki), p.Base), N: at.Len()}
 			}
 		}
-		return st.load(p)
+		lv := st.load(p)
+		if g, ok := x.X.(*ssa.Global); ok && g.Pkg != nil && g.Pkg.Pkg.Path() == "encoding/base64" {
+			if pt, ok := lv.(*Term); ok {
+				pad := int64('=')
+				if g.Name() == "RawURLEncoding" || g.Name() == "RawStdEncoding" {
+					pad = -1
+				}
+				kp := vc.reg.get("encoding.base64.Encoding.padChar", 1, IntSort, nil)
+				ks := vc.reg.get("encoding.base64.Encoding.strict", 1, BoolSort, nil)
+				vc.assume(st, And(Eq(Select(st.heapVar(kp), pt), IntC(pad)), Not(Select(st.heapVar(ks), pt)), Gt(pt, IntC(0))))
+				vc.used["encoding/base64 package encodings: padChar and strict flag as in the standard library"] = true
+			}
+		}
+		return lv
 	case token.NOT:
 		return Not(v.(*Term))
 	case token.SUB:
